@@ -55,3 +55,105 @@ def run_sort(spec):
     return {"op": "sort", "fn": fn, "mode": mode, "t": t, "p": p, "vals": vals,
             "inp": list(range(1, len(objs) + 1)) if ret == "ok" else [], "out": out, "ret": ret,
             "opts": cfg["opts"], "args": {"cmp": 0}, "obs": {}, "ev": []}
+
+
+# ---- reporting functions (C19) ---------------------------------------------------------------
+import datetime
+
+from pDESy.model.base_component import BaseComponent, BaseComponentState
+from pDESy.model.base_facility import BaseFacility, BaseFacilityState
+from pDESy.model.base_product import BaseProduct
+from pDESy.model.base_project import BaseProject
+from pDESy.model.base_task import BaseTask, BaseTaskState
+from pDESy.model.base_team import BaseTeam
+from pDESy.model.base_worker import BaseWorker, BaseWorkerState
+from pDESy.model.base_workflow import BaseWorkflow
+from pDESy.model.base_workplace import BaseWorkplace
+
+_ENUM = {"task": BaseTaskState, "component": BaseComponentState, "worker": BaseWorkerState,
+         "facility": BaseFacilityState}
+_CLS = {"task": BaseTask, "component": BaseComponent, "worker": BaseWorker, "facility": BaseFacility}
+_INIT = datetime.datetime(2020, 4, 1, 8, 0, 0)
+
+
+def _obj(cls, log, name="x"):
+    o = _CLS[cls](name)
+    o.state_record_list = [_ENUM[cls][s] for s in log]
+    return o
+
+
+def _half(x):
+    v = x * 2
+    return int(v) if int(v) == v else -99999
+
+
+def run_report(spec):
+    fn = spec["fn"]
+    rec = dict(spec)
+    rec.pop("kind", None)
+    rec.pop("id", None)
+    rec.pop("cfg", None)
+    rec.update(op="report", ret="ok", out=[], ev=[], args={"cmp": 0}, obs={},
+               opts={"absL": [], "autoAbs": False, "rule": "TSLACK", "maxTime": 1})
+    try:
+        with warnings.catch_warnings():
+            warnings.simplefilter("ignore")
+            if fn == "gantt":
+                o = _obj(spec["cls"], spec["log"])
+                res = o.get_time_list_for_gannt_chart(finish_margin=spec["m2"] / 2)
+                rec["out"] = [[[int(a), _half(b)] for a, b in lst] for lst in res]
+            elif fn == "rows":
+                o = _obj(spec["cls"], spec["log"])
+                unit = datetime.timedelta(seconds=spec["unit"])
+                kw = dict(finish_margin=spec["m2"] / 2, view_ready=spec["viewReady"])
+                if spec["cls"] in ("task", "component"):
+                    rows = o.create_data_for_gantt_plotly(_INIT, unit, **kw)
+                elif spec["cls"] == "worker":
+                    rows = BaseTeam("m", worker_list=[o]).create_data_for_gantt_plotly(
+                        _INIT, unit, view_absence=True, **kw)
+                else:
+                    rows = BaseWorkplace("p", facility_list=[o]).create_data_for_gantt_plotly(
+                        _INIT, unit, view_absence=True, **kw)
+                if spec["cls"] in ("worker", "facility"):
+                    rows = [dict(r, State=("FREE" if r["State"] == "READY" else r["State"])) for r in rows]
+                out = []
+                for r in rows:
+                    st = datetime.datetime.strptime(r["Start"], "%Y-%m-%d %H:%M:%S")
+                    fi = datetime.datetime.strptime(r["Finish"], "%Y-%m-%d %H:%M:%S")
+                    out.append([r["State"], int((st - _INIT).total_seconds()), int((fi - _INIT).total_seconds())])
+                rec["out"] = out
+            elif fn == "extract":
+                cls = spec["cls"]
+                objs = [_obj(cls, lg, "o%d" % i) for i, lg in enumerate(spec["logs"], 1)]
+                times = list(spec["times"])
+                state = spec["state"]
+                if cls == "task":
+                    c = BaseWorkflow(objs)
+                    f = {"NONE": c.extract_none_task_list, "READY": c.extract_ready_task_list,
+                         "WORKING": c.extract_working_task_list, "FINISHED": c.extract_finished_task_list}[state]
+                elif cls == "component":
+                    c = BaseProduct(objs)
+                    f = {"NONE": c.extract_none_component_list, "READY": c.extract_ready_component_list,
+                         "WORKING": c.extract_working_component_list,
+                         "FINISHED": c.extract_finished_component_list}[state]
+                elif cls == "worker":
+                    c = BaseTeam("m", worker_list=objs)
+                    f = {"FREE": c.extract_free_worker_list, "WORKING": c.extract_working_worker_list}[state]
+                else:
+                    c = BaseWorkplace("p", facility_list=objs)
+                    f = {"FREE": c.extract_free_facility_list, "WORKING": c.extract_working_facility_list}[state]
+                res = f(times)
+                pos = {id(o): i for i, o in enumerate(objs, 1)}
+                rec["out"] = sorted(pos.get(id(o), 0) for o in res)
+            elif fn == "lastdate":
+                p = BaseProject(init_datetime=_INIT, unit_timedelta=datetime.timedelta(seconds=7))
+                p.time = spec["time"]
+                last = _INIT + datetime.timedelta(seconds=spec["last"])
+                init = p.set_last_datetime(last, unit_timedelta=datetime.timedelta(seconds=spec["unit"]))
+                ok = (p.init_datetime == init) and p.unit_timedelta == datetime.timedelta(seconds=spec["unit"])
+                rec["out"] = int((init - _INIT).total_seconds()) if ok else -99999999
+            else:
+                raise ValueError(fn)
+    except Exception as e:
+        rec["ret"] = "exc:" + type(e).__name__
+    return rec
